@@ -391,7 +391,8 @@ func VeneerTrailAsComments(selector Selector) RewriteRule {
 				return fmt.Sprintf("Modified by veneer '%s'", veneer)
 			})
 
-			builders[i].For.Comments = append(builders[i].For.Comments, veneerTrail...)
+			// the object is a copy by value of the one in the schemas: its comments are not to be appended in place
+			builders[i].For.Comments = append(append([]string(nil), builders[i].For.Comments...), veneerTrail...)
 		}
 
 		return builders, nil
